@@ -297,6 +297,10 @@ macro_rules! streq {
 		if $o == other { $bad.push("ne_string_owned"); }
 		let alt = if $s.contains("%41") { $s.replace("%41", "A") } else if $s.contains('A') { $s.replacen('A', "%41", 1) } else if $s.contains("%61") { $s.replace("%61", "a") } else { $s.replacen('a', "%61", 1) };
 		if alt != $s && *$v == *alt.as_str() { $bad.push("eq_other_spelling"); }
+		// a string that differs only in ASCII case is a different text
+		let mut flipped = false;
+		let alt2: String = $s.chars().map(|c| if !flipped && c.is_ascii_alphabetic() { flipped = true; if c.is_ascii_lowercase() { c.to_ascii_uppercase() } else { c.to_ascii_lowercase() } } else { c }).collect();
+		if alt2 != $s && *$v == *alt2.as_str() { $bad.push("eq_other_case"); }
 	};
 	(@refstr $v:ident, $s:ident, $bad:ident) => {
 		if !(*$v == $s) { $bad.push("eq_refstr"); }
@@ -305,6 +309,9 @@ macro_rules! streq {
 		// a different spelling of the same octets is a different text
 		let alt = if $s.contains("%41") { $s.replace("%41", "A") } else if $s.contains('A') { $s.replacen('A', "%41", 1) } else if $s.contains("%61") { $s.replace("%61", "a") } else { $s.replacen('a', "%61", 1) };
 		if alt != $s && *$v == alt.as_str() { $bad.push("eq_other_spelling"); }
+		let mut flipped = false;
+		let alt2: String = $s.chars().map(|c| if !flipped && c.is_ascii_alphabetic() { flipped = true; if c.is_ascii_lowercase() { c.to_ascii_uppercase() } else { c.to_ascii_lowercase() } } else { c }).collect();
+		if alt2 != $s && *$v == alt2.as_str() { $bad.push("eq_other_case"); }
 	};
 }
 pub(crate) use streq;
